@@ -95,10 +95,8 @@ def nmTrace : W → List TOp → List (Nat × Nat)
   | _, [] => []
   | w, o :: ops => nmSets w o ++ nmTrace (tstep w o).1 ops
 
-/-- the value of `fn` after the sets: that of the LAST set of `fn`, the initial one if there is none -/
+/-- SPEC: the value of `fn` after a sequence of sets = that of the LAST set of `fn`, the initial one if there is none -/
 def lastNm (fn init : Nat) (sets : List (Nat × Nat)) : Nat :=
-  match (sets.filter fun s => s.1 = fn).getLast? with
-  | some s => s.2
-  | none => init
+  sets.foldl (fun cur s => if s.1 = fn then s.2 else cur) init
 
 end Spine.Disp
